@@ -272,6 +272,7 @@ func runC09(r *Report) {
 	ruleStackErrflow(r)
 	ruleHeaderCrc(r)
 	ruleExactLength(r)
+	ruleInputsValidated(r)
 }
 
 // endsInNilReturn: following jumps from b ends in a return with constant-nil error.
